@@ -9,10 +9,16 @@ From KV Require Import Lib.Bits Model.MsgSetReader Model.ReaderModel Spec.FetchS
 Import ListNotations.
 Open Scope Z_scope.
 
-Definition dd : Z -> list N -> option (list N) := fun _ _ => None.
-
 Section Sound.
+Variable compress : Z -> list N -> list N.
+Variable decomp : Z -> list N -> option (list N).
+Hypothesis decomp_law : forall c x, decomp c (compress c x) = Some x.
 Variable o : Z.
+
+Notation rec_step := (rec_step compress).
+Notation bstep := (bstep compress).
+Notation step1 := (step1 compress).
+Notation cstep := (cstep compress).
 
 (* batches in increasing, disjoint offset ranges, records inside their batch's range *)
 Fixpoint chain (lo : Z) (bs : list pbatch) {struct bs} : Prop :=
@@ -52,14 +58,14 @@ Proof.
 Qed.
 
 (* a record step inside a batch *)
-Lemma inv_rec_step b r rs' bs j hdr off last el r0 p' :
-  Inv (mkPos b (r :: rs') bs j hdr off last el) ->
-  rec_step b r rs' bs j off el = ARec r0 p' ->
+Lemma inv_rec_step md md0 lr0 b r rs' bs j j0 hdr off last el r0 p' :
+  Inv (mkPos b (r :: rs') bs j0 hdr off last el md0 lr0) ->
+  rec_step md b r rs' bs j off el = ARec r0 p' ->
   r0 = r /\ Inv p' /\ remp p' = rs' ++ flat_map pb_recs bs /\ r_off r < a_off p' /\ off <= a_off p'.
 Proof.
   intros (Ho & lo_rs & lo_bs & H1 & H2 & H3 & H4 & H5 & H6 & H7 & H8) Hs.
-  cbn [a_b a_rs a_bs a_j a_hdr a_off a_last a_el] in *.
-  destruct (rec_step_inv dd _ _ _ _ _ _ _ _ _ Hs) as (E0 & E1 & E2 & E3 & E4 & E5 & E6 & E7 & E8 & E9).
+  cbn [a_b a_rs a_bs a_j a_hdr a_off a_last a_el a_mode a_lr] in *.
+  destruct (rec_step_inv compress decomp decomp_law _ _ _ _ _ _ _ _ _ _ Hs) as (E0 & E1 & E2 & E3 & E4 & E5 & E6 & E7 & E8 & E9 & E10).
   subst r0. split; [reflexivity|].
   destruct H1 as [Hr1 Hr2]. specialize (H7 ltac:(discriminate)).
   assert (Hoff : r_off r < a_off p' /\ off <= a_off p'
@@ -76,7 +82,7 @@ Proof.
     destruct ((len (erecs b rs') =? 0) && _) eqn:Ej.
     - assert (Hnil : rs' = []).
       { destruct rs' as [|r1 t]; [reflexivity|exfalso]. rewrite erecs_cons, len_app in Ej.
-        pose proof (enc_record_nonempty dd (pb_base b) (pb_ts b) r1). pose proof (len_nonneg (erecs b t)). lia. }
+        pose proof (enc_record_nonempty compress decomp decomp_law (pb_base b) (pb_ts b) r1). pose proof (len_nonneg (erecs b t)). lia. }
       rewrite Hnil in *. split; [lia|]. split; [lia|].
       intros x Hx0 _. cbn [app] in Hx0. pose proof (chain_lb _ _ x H2 Hx0). lia.
     - split; [lia|]. split; [lia|].
@@ -106,31 +112,44 @@ Proof.
   - cbn [flat_map]. rewrite Er. cbn [app].
     apply (IH (j - 61) off last (pb_base b + pb_lod b) r0 p' (pb_base b + pb_lod b + 1)); try assumption; try lia.
     intros x Hx. apply HJ. cbn [flat_map]. rewrite Er. exact Hx.
-  - assert (HI : Inv (mkPos b (r :: rs') t (j - 61) (hdr_of b) off last el)).
+  - assert (HI : Inv (mkPos b (r :: rs') t (j - 61) (hdr_of compress b) off last el MPlain 0)).
     { split; [exact Ho|]. exists (pb_base b), (pb_base b + pb_lod b + 1).
       cbn [a_b a_rs a_bs a_j a_hdr a_off a_last a_el].
       split; [exact C3|]. split; [exact C5|].
       split; [intros x Hx; pose proof (proj1 (Forall_forall _ _) C4 x Hx); cbn in *; lia|].
       split; [lia|]. split; [lia|]. split; [intros H; discriminate H|]. split; [intros _; lia|].
       intros x Hx. apply HJ. cbn [flat_map]. rewrite Er. exact Hx. }
-    destruct (inv_rec_step b r rs' t (j - 61) (hdr_of b) off last el r0 p' HI Hs) as (E0 & HI' & Hrem & Hlt & Hle).
-    subst r0. exists []. cbn [flat_map app]. rewrite Er, Hrem.
-    split; [reflexivity|]. split; [reflexivity|]. split; [exact HI'|]. split; [exact Hlt|exact Hle].
+    assert (Hfin : forall md jj, rec_step md b r rs' t jj off el = ARec r0 p' ->
+              exists pre, flat_map pb_recs (b :: t) = pre ++ r0 :: remp p' /\ pre = [] /\ Inv p' /\ r_off r0 < a_off p' /\ off <= a_off p').
+    { intros md jj Hs'.
+      destruct (inv_rec_step md MPlain 0 b r rs' t jj (j - 61) (hdr_of compress b) off last el r0 p' HI Hs') as (E0 & HI' & Hrem & Hlt & Hle).
+      subst r0. exists []. cbn [flat_map app]. rewrite Er, Hrem.
+      split; [reflexivity|]. split; [reflexivity|]. split; [exact HI'|]. split; [exact Hlt|exact Hle]. }
+    destruct (pb_codec b =? 0).
+    + apply (Hfin _ _ Hs).
+    + destruct (cstep_inv compress decomp decomp_law _ _ _ _ _ _ _ _ _ Hs) as [_ Hs']. apply (Hfin _ _ Hs').
 Qed.
 
 Lemma step1_rec p r0 p' : Inv p -> step1 p = ARec r0 p' ->
   remp p = r0 :: remp p' /\ Inv p' /\ r_off r0 < a_off p' /\ a_off p <= a_off p'.
 Proof.
-  intros HI Hs. unfold step1 in Hs. destruct p as [b rs bs j hdr off last el].
-  cbn [a_b a_rs a_bs a_j a_hdr a_off a_last a_el] in *. destruct rs as [|r rs'].
+  intros HI Hs. unfold ReaderV2Run.step1 in Hs. destruct p as [b rs bs j hdr off last el md lr].
+  cbn [a_b a_rs a_bs a_j a_hdr a_off a_last a_el a_mode a_lr] in *. destruct rs as [|r rs'].
   - destruct HI as (Ho & lo_rs & lo_bs & H1 & H2 & H3 & H4 & H5 & H6 & H7 & H8).
     cbn [a_b a_rs a_bs a_j a_hdr a_off a_last a_el] in *.
     assert (HJ : forall x, In x (flat_map pb_recs bs) -> o <= r_off x -> off <= r_off x)
       by (intros x Hx; apply H8; unfold remp; cbn [a_rs a_bs app]; exact Hx).
     destruct (inv_bstep bs j off last el r0 p' lo_bs Ho H2 H5 (H6 eq_refl) HJ Hs) as (pre & E1 & E2 & E3 & E4 & E5).
     subst pre. unfold remp at 1. cbn [a_rs a_bs app]. rewrite E1. auto.
-  - destruct (inv_rec_step _ _ _ _ _ _ _ _ _ _ _ HI Hs) as (E0 & HI' & Hrem & Hlt & Hle).
-    subst r0. unfold remp at 1. cbn [a_rs a_bs]. rewrite Hrem. auto.
+  - assert (Hfin : forall md' jj, rec_step md' b r rs' bs jj off el = ARec r0 p' ->
+              remp (mkPos b (r :: rs') bs j hdr off last el md lr) = r0 :: remp p' /\ Inv p' /\ r_off r0 < a_off p' /\ off <= a_off p').
+    { intros md' jj Hs'.
+      destruct (inv_rec_step md' md lr b r rs' bs jj j hdr off last el r0 p' HI Hs') as (E0 & HI' & Hrem & Hlt & Hle).
+      subst r0. unfold remp at 1. cbn [a_rs a_bs]. rewrite Hrem. auto. }
+    destruct md.
+    + apply (Hfin _ _ Hs).
+    + destruct (cstep_inv compress decomp decomp_law _ _ _ _ _ _ _ _ _ Hs) as [_ Hs']. apply (Hfin _ _ Hs').
+    + apply (Hfin _ _ Hs).
 Qed.
 
 (* the end of the response: the final offset is at or below every remaining record >= o *)
@@ -154,8 +173,12 @@ Proof.
       * destruct (IH (j - 61) off last (pb_base b + pb_lod b) x (pb_base b + pb_lod b + 1)) as [I1 I2]; try assumption; try lia.
         { intros r Hr. apply HJ. cbn [flat_map]. rewrite Er. exact Hr. }
         split; [exact I1|]. intros r Hr. apply I2. cbn [flat_map] in Hr. rewrite Er in Hr. exact Hr.
-      * unfold rec_step in Hs. cbv zeta in Hs. destruct (_ <? _) in Hs; [|discriminate].
-        injection Hs as <-. unfold eoff_in. split; [destruct (off <=? el) eqn:?; lia|].
+      * assert (Hx : x = eoff_in off el).
+        { destruct (pb_codec b =? 0).
+          - unfold ReaderV2Run.rec_step in Hs. cbv zeta in Hs. destruct (_ <? _) in Hs; [|discriminate]. injection Hs as <-. reflexivity.
+          - unfold ReaderV2Run.cstep in Hs. destruct (_ <? _) in Hs; [injection Hs as <-; reflexivity|].
+            unfold ReaderV2Run.rec_step in Hs. cbv zeta in Hs. destruct (_ <? _) in Hs; [|discriminate]. injection Hs as <-. reflexivity. }
+        subst x. unfold eoff_in. split; [destruct (off <=? el) eqn:?; lia|].
         intros r Hr Hor. specialize (Hall r Hr). specialize (HJ r Hr Hor). destruct (off <=? el) eqn:?; lia.
 Qed.
 
@@ -164,19 +187,24 @@ Lemma step1_end p x : Inv p -> step1 p = AEnd x ->
 Proof.
   intros HI Hs. pose proof (inv_lb p HI) as Hlb.
   destruct HI as (Ho & lo_rs & lo_bs & H1 & H2 & H3 & H4 & H5 & H6 & H7 & H8).
-  unfold step1 in Hs. destruct (a_rs p) as [|r rs'] eqn:Ers.
+  unfold ReaderV2Run.step1 in Hs. destruct (a_rs p) as [|r rs'] eqn:Ers.
   - assert (Hrm : remp p = flat_map pb_recs (a_bs p)) by (unfold remp; rewrite Ers; reflexivity).
     rewrite Hrm in *.
     apply (bstep_end (a_bs p) (a_j p) (a_off p) (a_last p) (a_el p) x lo_bs); try assumption.
     apply H6. reflexivity.
-  - unfold rec_step in Hs. cbv zeta in Hs. destruct (_ <? _) in Hs; [|discriminate].
-    injection Hs as <-. unfold eoff_in. split; [destruct (a_off p <=? a_el p) eqn:?; lia|].
+  - assert (Hx : x = eoff_in (a_off p) (a_el p)).
+    { destruct (a_mode p).
+      - unfold ReaderV2Run.rec_step in Hs. cbv zeta in Hs. destruct (_ <? _) in Hs; [|discriminate]. injection Hs as <-. reflexivity.
+      - unfold ReaderV2Run.cstep in Hs. destruct (_ <? _) in Hs; [injection Hs as <-; reflexivity|].
+        unfold ReaderV2Run.rec_step in Hs. cbv zeta in Hs. destruct (_ <? _) in Hs; [|discriminate]. injection Hs as <-. reflexivity.
+      - unfold ReaderV2Run.rec_step in Hs. cbv zeta in Hs. destruct (_ <? _) in Hs; [|discriminate]. injection Hs as <-. reflexivity. }
+    subst x. unfold eoff_in. split; [destruct (a_off p <=? a_el p) eqn:?; lia|].
     intros x Hx Hox. specialize (Hlb x Hx). specialize (H8 x Hx Hox). destruct (a_off p <=? a_el p) eqn:?; lia.
 Qed.
 
 (* Batch.ReadMessage: skips records below o, then delivers one or stops *)
 Lemma a_read_spec : forall fuel p, Inv p ->
-  match a_read o fuel p with
+  match a_read compress o fuel p with
   | ADeliver r p' => exists sk, remp p = sk ++ r :: remp p' /\ Forall (fun x => r_off x < o) sk
                                 /\ o <= r_off r /\ Inv p' /\ a_off p <= a_off p'
                                 /\ Forall (fun x => r_off x < a_off p') (sk ++ [r])
@@ -189,7 +217,7 @@ Proof.
   cbn [a_read]. destruct (step1 p) as [r p1|x] eqn:Es.
   - destruct (step1_rec p r p1 HI Es) as (E1 & HI1 & Hlt & Hle).
     destruct (r_off r <? o) eqn:Er.
-    + specialize (IH p1 HI1). destruct (a_read o f p1) as [r2 p2|x2|]; [| |exact I].
+    + specialize (IH p1 HI1). destruct (a_read compress o f p1) as [r2 p2|x2|]; [| |exact I].
       * destruct IH as (sk & F1 & F2 & F3 & F4 & F5 & F6).
         exists (r :: sk). rewrite E1, F1. split; [reflexivity|]. split; [constructor; [lia|exact F2]|].
         split; [exact F3|]. split; [exact F4|]. split; [lia|].
@@ -208,14 +236,14 @@ Proof.
   induction 1 as [|x t Hx _ IH]; [reflexivity|]. cbn [filter]. replace (o <=? r_off x) with false by lia. exact IH.
 Qed.
 
-Lemma a_run_spec : forall fuel p acc ms x, Inv p -> a_run o fuel p acc = Some (ms, x) ->
+Lemma a_run_spec : forall fuel p acc ms x, Inv p -> a_run compress o fuel p acc = Some (ms, x) ->
   exists Rp Rs, remp p = Rp ++ Rs /\ ms = rev acc ++ mm (filter (fun r => o <=? r_off r) Rp)
                 /\ Forall (fun r => r_off r < x) Rp
                 /\ (forall r, In r Rs -> o <= r_off r -> x <= r_off r) /\ a_off p <= x.
 Proof.
   induction fuel as [|f IH]; intros p acc ms x HI Hrun; [discriminate|].
   cbn [a_run] in Hrun. pose proof (a_read_spec (S f) p HI) as Hr.
-  destruct (a_read o (S f) p) as [r p1|x1|]; [| |discriminate].
+  destruct (a_read compress o (S f) p) as [r p1|x1|]; [| |discriminate].
   - destruct Hr as (sk & F1 & F2 & F3 & F4 & F5 & F6).
     destruct (IH p1 (msg_of r :: acc) ms x F4 Hrun) as (Rp & Rs & G1 & G2 & G3 & G4 & G5).
     exists (sk ++ r :: Rp), Rs. split; [rewrite F1, G1, <- app_assoc; reflexivity|].
